@@ -161,10 +161,10 @@ Definition tokenise_number (l : list Z) : res (list Z) * list Z :=
           else
             let r1' := if upper h =? 79 then r1 else r in
             let (w, r2) := span (fun c => is_octdigit c || is_blank c) r1' in
-            let s := strip_blanks w in
-            (if existsb is_blank s then Host host_ValueError
-             else let v := oct_val s in
-                  if v <=? 65535 then Ok (tk_T_OCT ++ le16 v) else Err 6, r2)
+            (* Integer.from_oct removes every blank (space, tab, LF) before int(.., 8) *)
+            let s := filter (fun c => negb (is_blank c)) w in
+            (let v := oct_val s in
+             if v <=? 65535 then Ok (tk_T_OCT ++ le16 v) else Err 6, r2)
       | [] => (Ok (tk_T_OCT ++ le16 0), [])
       end
     else
